@@ -129,7 +129,7 @@ def find_local_fn(repo, name):
     hits = []
     src = os.path.join(repo, 'src')
     for f in sorted(os.listdir(src)):
-        if f.endswith('.rs') and re.search(r'^\s*(?:pub(?:\([a-z]+\))?\s+)?fn\s+%s\s*[<(]' % re.escape(name), open(os.path.join(src, f)).read(), re.M):
+        if f.endswith('.rs') and re.search(r'^(?:pub(?:\([a-z]+\))?\s+)?fn\s+%s\s*[<(]' % re.escape(name), open(os.path.join(src, f)).read(), re.M):
             hits.append(f)
     return (hits[0], name) if len(hits) == 1 else None
 
